@@ -66,8 +66,17 @@ Proof.
   destruct a, b, c; cbn; try tauto.
   - intros [H1 ->] [H2 ->]. split; [intros; now rewrite H1|reflexivity].
   - intros [H1 [-> ->]] [H2 [-> ->]]. split; [intros; now rewrite H1|auto].
+  - congruence.
 Qed.
 
+
+Lemma req_sym a b : req a b -> req b a.
+Proof.
+  destruct a, b; cbn; try tauto.
+  - intros [H ->]. split; [intros; now rewrite H|reflexivity].
+  - intros [H [-> ->]]. split; [intros; now rewrite H|auto].
+  - congruence.
+Qed.
 
 Section Comm.
   Variable F : string -> list val -> list (string * val) -> option (list val).
@@ -81,7 +90,7 @@ Section Comm.
   Definition clean (S : rstate) : Prop :=
     match S with
     | RRun s _ | RStop s _ _ => forall y, LV y -> s y = None
-    | RCrash _ => True
+    | RCrash _ _ => True
     end.
 
   Lemma step_clean st S : U st -> clean S -> clean (step F g st S).
@@ -209,21 +218,21 @@ Section Comm.
              rewrite (exec_stmt_unch F g s a aa sa None Ea x Hxa). reflexivity.
       + (* a raises a user exception on s, hence on sb *)
         cbn [step]. destruct (exec_stmt F g sb a) as [aa' oa']. cbn [snd] in *.
-        destruct oa'; cbn in Fa; try contradiction. cbn. exact I.
+        destruct oa'; cbn in Fa; try contradiction; cbn; rewrite ?app_nil_r; reflexivity.
       + cbn [step]. destruct (exec_stmt F g sb a) as [aa' oa']. cbn [snd] in *.
-        destruct oa'; cbn in Fa; try contradiction. cbn. exact I.
+        destruct oa'; cbn in Fa; try contradiction; cbn; rewrite ?app_nil_r; reflexivity.
     - (* b raises on s: it also raises after a *)
       cbn [step].
-      destruct Na as [[sa ->]|[->| ->]]; cbn [step]; try exact I.
+      destruct Na as [[sa ->]|[->| ->]]; cbn [step]; try (cbn; rewrite ?app_nil_r; reflexivity).
       pose proof (undisturbed b a s aa sa Ub Ua (indep_sym tok a b Hi) Hc Ea) as Hba.
       pose proof (frame_same b s sa Hba) as Fb. rewrite Eb in Fb. cbn [snd] in Fb.
       destruct (exec_stmt F g sa b) as [ab' ob']. cbn [snd] in *.
-      destruct ob'; cbn in Fb; try contradiction. cbn. exact I.
+      destruct ob'; cbn in Fb; try contradiction; cbn; rewrite ?app_nil_r; reflexivity.
     - cbn [step].
-      destruct Na as [[sa ->]|[->| ->]]; cbn [step]; try exact I.
+      destruct Na as [[sa ->]|[->| ->]]; cbn [step]; try (cbn; rewrite ?app_nil_r; reflexivity).
       pose proof (undisturbed b a s aa sa Ub Ua (indep_sym tok a b Hi) Hc Ea) as Hba.
       pose proof (frame_same b s sa Hba) as Fb. rewrite Eb in Fb. cbn [snd] in Fb.
       destruct (exec_stmt F g sa b) as [ab' ob']. cbn [snd] in *.
-      destruct ob'; cbn in Fb; try contradiction. cbn. exact I.
+      destruct ob'; cbn in Fb; try contradiction; cbn; rewrite ?app_nil_r; reflexivity.
   Qed.
 End Comm.
